@@ -60,6 +60,9 @@ class Sigma:
         self.hfwdom = Fn("hfwdom" + t, I_, I_, I_, I_, B_)
         self.hval = Fn("hval" + t, I_, R_)                     # host value by host number
         self.dval = Fn("dval" + t, I_, R_)
+        self.os_of = Fn("os_of" + t, I_, I_, B_)               # host number, OS name -> runs it
+        self.srv_of = Fn("srv_of" + t, I_, I_, B_)
+        self.proc_of = Fn("proc_of" + t, I_, I_, B_)
         self.ssub = Fn("ssub" + t, I_, I_)                     # sensitive address list
         self.shid = Fn("shid" + t, I_, I_)
         self.sval = Fn("sval" + t, I_, R_)
@@ -132,6 +135,12 @@ class Sigma:
     def Nk(self):
         """the host count in the form rows_spec/psum want it"""
         return self.N if isinstance(self.N, int) else self.N
+
+    def exists_range(self, n, fn, base="x"):
+        if isinstance(n, int):
+            return z3.Or(*[fn(i) for i in range(n)]) if n else z3.BoolVal(False)
+        j = self.qvar(base)
+        return z3.Exists([j], z3.And(0 <= j, j < n, fn(j)))
 
     def valid_addr(self, s, h):
         s, h = ival(s), ival(h)
@@ -207,7 +216,9 @@ class Sigma:
 
     def firewall_dict(self):
         return SymDict(lambda k: self.fwdom(ival(k[0]), ival(k[1])),
-                       lambda k: SymColl(lambda x, k=k: self.allow(ival(k[0]), ival(k[1]), nameval(x)), "fw-list"),
+                       lambda k: SymColl(lambda x, k=k: self.allow(ival(k[0]), ival(k[1]), nameval(x)), "fw-list",
+                                         nonempty=self.exists_range(self.nSrv, lambda x, k=k: self.allow(
+                                             ival(k[0]), ival(k[1]), ival(x)), "ne")),
                        label="firewall")
 
     def host_obj(self, I, key):
@@ -224,8 +235,18 @@ class Sigma:
                      lambda k: SymColl(lambda x, k=k: self.deny(ks, kh, ival(k[0]), ival(k[1]), nameval(x)),
                                        "host-deny-list"),
                      label="host-firewall")
+        hn = z3.IntVal(idx) if not self.symbolic else i
+        cfg = lambda n, f, lab: SymDict(
+            lambda k: z3.And(0 <= nameval(k), nameval(k) < n), lambda k: mk(f(hn, nameval(k)), "bool"),
+            keys=SymSeq(n, lambda j: mk(ival(j), "name"), lab + ".keys"),
+            label=lab)
         return Obj(hostcls, {"address": key, "firewall": fw, "value": mk(hv, "real"),
-                             "discovery_value": mk(dv, "real")}, fresh=False, label="Host")
+                             "discovery_value": mk(dv, "real"), "compromised": False, "reachable": False,
+                             "discovered": False, "access": 0,
+                             "os": cfg(self.nOS, self.os_of, "host.os"),
+                             "services": cfg(self.nSrv, self.srv_of, "host.services"),
+                             "processes": cfg(self.nProc, self.proc_of, "host.processes")},
+                   fresh=False, label="Host")
 
     def hosts_dict(self, I):
         if not self.symbolic:
@@ -282,7 +303,7 @@ class Sigma:
         return L
 
     def idx_map(self, n, label):
-        keys = SymSeq(n, lambda i: mk(ival(i), "name") if not isinstance(i, int) else SymV(z3.IntVal(i), "name"), label + ".keys")
+        keys = SymSeq(n, lambda i: mk(ival(i), "name"), label + ".keys")
         return SymDict(lambda k: z3.And(0 <= nameval(k), nameval(k) < n),
                        lambda k: mk(nameval(k), "int"), keys=keys, label=label)
 
@@ -445,3 +466,20 @@ def mask_dyn(L, row):
     agree on every configuration column iff their masks are equal (quantifier-free, extensional)"""
     z = z3.RealVal(0)
     return z3.Store(z3.Store(z3.Store(z3.Store(row, L.comp, z), L.reach, z), L.disc, z), L.access, z)
+
+
+def row_spec(sig, i, c):
+    """documented content of column c of the *scenario-defined* (pre-reset) row of host number i
+    (C09): subnet one-hot, host one-hot, compromised, reachable, discovered, value, discovery value,
+    access, OS flags, service flags, process flags; the dynamic cells are 0 before reset."""
+    L = sig.layout()
+    b = lambda t: z3.If(t, z3.RealVal(1), z3.RealVal(0))
+    i = ival(i)
+    return z3.If(z3.And(0 <= c, c < sig.B0), b(c == sig.asub_t(i)),
+           z3.If(z3.And(sig.B0 <= c, c < L.comp), b(c - sig.B0 == sig.ahid_t(i)),
+           z3.If(c == L.value, sig.hval(i),
+           z3.If(c == L.dvalue, sig.dval(i),
+           z3.If(z3.And(L.os0 <= c, c < L.srv0), b(sig.os_of(i, c - L.os0)),
+           z3.If(z3.And(L.srv0 <= c, c < L.proc0), b(sig.srv_of(i, c - L.srv0)),
+           z3.If(z3.And(L.proc0 <= c, c < L.W), b(sig.proc_of(i, c - L.proc0)),
+                 z3.RealVal(0))))))))
